@@ -544,10 +544,18 @@ def eq(ctx, r1: Rope, r2: Rope):
     def intlike(x):
         return isinstance(x, (IntSeg, Lit, Zeros)) and isinstance(x.length, int)
 
+    rounds = 0
     while a and b:
         settle(a)
         settle(b)
         if not a or not b:
+            break
+        rounds += 1
+        if rounds > 4 * (len(r1.segs) + len(r2.segs)) + 64:
+            # the cut-point search is not converging (length comparisons that keep coming back undecided): compare the
+            # remainders as opaque terms instead - sound, merely less informative for the solver
+            conj.append(to_term(ctx, Rope(a)) == to_term(ctx, Rope(b)))
+            a, b = [], []
             break
         s, t = a[0], b[0]
         ls, lt = s.length, t.length
